@@ -1,5 +1,7 @@
 (* C10 - reserved feature bits are refused; enabled ones work (leaf functions). *)
 From PS Require Import Base MiscDefs SpecDefs MiscProofs ApiDefs SpecApi ApiLemmas RefineProofs ApiTheorems.
+From PS Require Import CTieBase CTieFeat.
+From PS.Gen Require CFuns.
 From PS.Gen Require Import Consts Langs.
 Local Open Scope N_scope.
 
@@ -59,3 +61,16 @@ Proof.
   rewrite forallb_forall in T. specialize (T mask (GFProofs.in_range 8 mask Hm)).
   rewrite forallb_forall in T. specialize (T f (GFProofs.in_range 32 f Hf)). apply Bool.eqb_prop, T.
 Qed.
+
+(* ---- the tie to the code: features.h / features.c as TRANSLATED from /repo's current source on this
+   run (Gen/CFuns.v): each function equals the mirror the theorems above are about, for EVERY unsigned
+   argument; polyseed_enable_features returns (new reserved mask, number enabled) whatever the old mask *)
+Theorem C10_code_tie :
+  (forall u, CFuns.make_features (Z.of_N u) = Z.of_N (make_features u)) /\
+  (forall f m, CFuns.get_features (Z.of_N f) (Z.of_N m) = Z.of_N (get_features f m)) /\
+  (forall f, CFuns.is_encrypted (Z.of_N f) = if is_encrypted f then 1%Z else 0%Z) /\
+  (forall r f, CFuns.polyseed_features_supported (Z.of_N r) (Z.of_N f) = if features_supported r f then 1%Z else 0%Z) /\
+  (forall r0 m, m < 2 ^ 32 ->
+     CFuns.polyseed_enable_features r0 (Z.of_N m) = (Z.of_N (fst (enable_features m)), Z.of_N (snd (enable_features m)))).
+Proof. exact (conj tie_make_features (conj tie_get_features (conj tie_is_encrypted (conj tie_features_supported tie_enable_features)))). Qed.
+Print Assumptions C10_code_tie.
